@@ -65,7 +65,7 @@ class _G:
 @st.composite
 def _unit(draw):
     g = _G(draw)
-    pick = draw(st.integers(0, 37))
+    pick = draw(st.integers(0, 39))
     sup = True
     pre = ""
     label = ""
@@ -266,6 +266,18 @@ def _unit(draw):
         l1, l2 = g.lam(o, a)[0], g.lam(o, a)[0]
         body = f"q = ds.{o}({l1})  # first\n\n# ds.{o}(lambda {a}: {a})\nq = q.{o}({l2})"
         label = "commented-out-call-between"
+    elif pick in (38, 39):
+        o1, o2 = g.op(), g.op()
+        a = draw(st.sampled_from(ARGS))
+        g.n += 1
+        m1 = 1000 + g.n * 17
+        inner = draw(st.sampled_from([f"[{a}, (\n    lambda j: j)][0] * 2 + {m1}", f"{a} + (lambda j: 0)(\n    lambda j: j) + {m1}"]))
+        if o1 == "Where":
+            inner = f"({inner}) > 0"
+        a2 = a if pick == 38 else draw(st.sampled_from(ARGS))
+        body = f"q = ds.{o1}(lambda {a}: {inner}).{o2}({g.lam(o2, a2)[0]})"
+        sup = False
+        label = "continuation-line-starts-with-nested-lambda"
     elif pick == 36:
         o1, o2 = g.op(), g.op()
         a = draw(st.sampled_from(ARGS))
